@@ -7,6 +7,11 @@
 //!   execute         PreparedStatement
 //!   batch_prepared  Batch of two prepared statements
 //!   batch_mixed     Batch of one prepared and one unprepared statement WITH bound values (rebuilt-batch path)
+//!   query_novals / query_page / query_iter   Statement without values (plain QUERY frame) unpaged / single page / paging iterator
+//!   query_iter_vals                          Statement with values through the paging iterator
+//!   execute_page / execute_iter              PreparedStatement by single page / through the paging iterator
+//!   execute_lwt     PreparedStatement the node marked as LWT (SCYLLA_LWT_ADD_METADATA_MARK)
+//!   batch_member    Batch with an explicit timestamp whose member statements carry explicit timestamps of their own
 //!   evict: 1        the node forgets every prepared statement just before the step (UNPREPARED -> PREPARE -> same request again)
 //! Output per step: {"step":..,"ok":0|1,"err":"","frames":[{"opcode":7|10|13,"ts":T|"none","reply":"void"|"unprepared"}...]}
 use std::collections::HashSet;
@@ -24,6 +29,7 @@ const PORT: u16 = 19418;
 const INS_A: &str = "INSERT INTO ks.t (a, b) VALUES (?, ?)";
 const INS_B: &str = "INSERT INTO ks.t (a, b) VALUES (?, ?) IF NOT EXISTS";
 const INS_Q: &str = "UPDATE ks.t SET b = ? WHERE a = ?";
+const INS_N: &str = "UPDATE ks.t SET b = 1 WHERE a = 2";
 
 #[derive(Default)]
 struct Model {
@@ -47,6 +53,11 @@ impl Model {
                 let text = req.query.clone().unwrap_or_default();
                 let id = stable_id(text.as_bytes());
                 self.prepared.insert(id.clone());
+                if text.contains("IF NOT EXISTS") && req.ext_lwt_mark {
+                    // the node marks the statement as LWT (prepared-metadata flag negotiated through SCYLLA_LWT_ADD_METADATA_MARK)
+                    let body = crate::mock::encode_prepared_body(false, &id, None, crate::mock::LWT_MARK_MASK, &[0], &bind_cols(), &[], "ks", "t");
+                    return Action::Reply(Reply::Raw { opcode: 8, body });
+                }
                 Action::Reply(Reply::Prepared { id, result_metadata_id: None, pk_indexes: vec![0], bind_cols: bind_cols(), result_cols: vec![], ks: "ks".into(), table: "t".into() })
             }
             7 | 10 | 13 => {
@@ -85,7 +96,7 @@ fn mock_config() -> MockConfig {
             msb_ignore: 0,
             metadata_id_ext: false,
             tablets_ext: false,
-            lwt_mark: false,
+            lwt_mark: true,
         }],
         keyspaces: vec![MockKeyspace {
             name: "ks".into(),
@@ -109,6 +120,7 @@ async fn run_script(sc: &Value) -> Value {
     use scylla::client::session_builder::SessionBuilder;
     use scylla::policies::timestamp_generator::MonotonicTimestampGenerator;
     use scylla::statement::batch::{Batch, BatchType};
+    use scylla::response::PagingState;
     use scylla::statement::unprepared::Statement;
 
     let id = sc["id"].clone();
@@ -145,6 +157,7 @@ async fn run_script(sc: &Value) -> Value {
             return fail(format!("prepare: {:?} {:?}", a.err().map(|e| e.to_string()), b.err().map(|e| e.to_string())));
         }
     };
+    let lwt_confirmed = pb.is_confirmed_lwt() && !pa.is_confirmed_lwt();
     let mut steps = Vec::new();
     for (i, st) in sc["steps"].as_array().cloned().unwrap_or_default().into_iter().enumerate() {
         let explicit = st["explicit"].as_u64() == Some(1);
@@ -168,6 +181,49 @@ async fn run_script(sc: &Value) -> Value {
                     p.set_timestamp(Some(ts));
                 }
                 session.execute_unpaged(&p, (k, k)).await.map(|_| ()).map_err(|e| e.to_string())
+            }
+            "query_novals" | "query_page" | "query_iter" => {
+                let mut q = Statement::new(INS_N);
+                if explicit {
+                    q.set_timestamp(Some(ts));
+                }
+                match st["op"].as_str().unwrap_or("") {
+                    "query_novals" => session.query_unpaged(q, ()).await.map(|_| ()).map_err(|e| e.to_string()),
+                    "query_page" => session.query_single_page(q, (), PagingState::start()).await.map(|_| ()).map_err(|e| e.to_string()),
+                    _ => session.query_iter(q, ()).await.map(|_| ()).map_err(|e| e.to_string()),
+                }
+            }
+            "query_iter_vals" => {
+                let mut q = Statement::new(INS_Q);
+                if explicit {
+                    q.set_timestamp(Some(ts));
+                }
+                session.query_iter(q, (k, k)).await.map(|_| ()).map_err(|e| e.to_string())
+            }
+            "execute_page" | "execute_iter" | "execute_lwt" => {
+                let mut p = if st["op"] == "execute_lwt" { pb.clone() } else { pa.clone() };
+                if explicit {
+                    p.set_timestamp(Some(ts));
+                }
+                match st["op"].as_str().unwrap_or("") {
+                    "execute_page" => session.execute_single_page(&p, (k, k), PagingState::start()).await.map(|_| ()).map_err(|e| e.to_string()),
+                    "execute_iter" => session.execute_iter(p, (k, k)).await.map(|_| ()).map_err(|e| e.to_string()),
+                    _ => session.execute_unpaged(&p, (k, k)).await.map(|_| ()).map_err(|e| e.to_string()),
+                }
+            }
+            "batch_member" => {
+                // the members carry explicit timestamps of their own; the batch's is the one of the request
+                let mut b = Batch::new(BatchType::Logged);
+                let mut m1 = pa.clone();
+                m1.set_timestamp(Some(ts.wrapping_add(1)));
+                let mut m2 = Statement::new(INS_N);
+                m2.set_timestamp(Some(7));
+                b.append_statement(m1);
+                b.append_statement(m2);
+                if explicit {
+                    b.set_timestamp(Some(ts));
+                }
+                session.batch(&b, ((k, k), ())).await.map(|_| ()).map_err(|e| e.to_string())
             }
             "batch_prepared" => {
                 let mut b = Batch::new(BatchType::Logged);
@@ -194,7 +250,7 @@ async fn run_script(sc: &Value) -> Value {
     }
     drop(session);
     mock.shutdown().await;
-    json!({"id": id, "start_err": "", "steps": steps})
+    json!({"id": id, "start_err": "", "lwt_confirmed": lwt_confirmed as u8, "steps": steps})
 }
 
 pub fn cmd_e2e(args: &[String]) -> i32 {
